@@ -32,7 +32,9 @@ class Exec(ExprMixin, CallMixin):
     self.fn = fn_node
     self.ctr = ctr
     self.class_name = class_name
-    self.module_globals = dict(C.MODULE_GLOBALS.get(ctr.file, {}))
+    from pyvc import loader as _loader
+    self.module_globals = dict(_loader.module_constants(ctr.file)) if not ctr.abstract else {}
+    self.module_globals.update(C.MODULE_GLOBALS.get(ctr.file, {}))
     self.module_globals.update(module_globals or {})
     self.obligations = []
     self.unsupported = []
